@@ -9,10 +9,14 @@ import util
 from framework import pmap
 
 ID = 'C11'
-LEAN_MODULES = ['Pfst.Props.C11']
+LEAN_MODULES = ['Pfst.Props.C11', 'Pfst.Props.C04']
+LEAN_DEPS = ['Pfst.Offset', 'Pfst.OffsetLemmas', 'Pfst.Text', 'Pfst.TextLemmas']
 THEOREMS = [
     'Pfst.C11.break_eq_full', 'Pfst.C11.before_fixed', 'Pfst.C11.after_shift', 'Pfst.C11.container_grows',
     'Pfst.C11.params_bytes', 'Pfst.C11.offsetNode_table',
+    # text level (shared text layer, Pfst/Props/C04.lean): what _put_src does to the lines, and that spans shifted by
+    # exactly (dln, dcol) denote the same text — the byte dcol is the one _params_offset computes
+    'Pfst.C04.putSrc_flat', 'Pfst.C04.getSrc_before', 'Pfst.C04.getSrc_after', 'Pfst.C04.getSrc_container', 'Pfst.C04.dcol_bytes',
 ]
 RULE = ('(a) FST._offset called directly on real trees (syntax-ordered children, decorators, unpositioned nodes, some '
         'nodes made zero-length) with random and boundary offset points and every (tail, head) in {True,False,None}^2, '
@@ -425,6 +429,7 @@ LEVEL_TEXT = ('Lean 4 theorems about an executable model of _offset/_params_offs
               'nodes before the spot are fixed, nodes after it shift by exactly the delta, containers grow; byte-delta '
               'formula; the docstring table. Tied to /repo by running model and implementation on the same trees each run.')
 LEVEL_NOTE = ('Theorems are about the model; the tie is differential (thousands of real trees per run, all positions '
-              'compared). CPython ast.parse is the judge for "equal to a from-scratch parse". Partial: the text-level '
-              'statement is proved for _put_src in Pfst/Text (C04), not for arbitrary trivia classification.')
+              'compared). CPython ast.parse is the judge for "equal to a from-scratch parse". The text-level statements '
+              '(getSrc_before/after/container, dcol_bytes) are proved in the shared text layer and audited here too; which '
+              'text counts as trivia for CPython is judged per case by ast.parse.')
 TECHNIQUE = 'Lean 4 proof (structural induction over nested trees, omega/decide) + model-implementation correspondence'
